@@ -335,8 +335,9 @@ def r20_6(run, model):
                       "strip_prefix / strip_suffix in the compiler whose argument is not a literal gets an argument built with the `::` "
                       "separator (format!(\"{}::\", ns), format!(\"::{}\", ..)), a named constant, or a ledgered user-typed prefix")
     n = 0
+    NAMESPACE_FILES = ("crates/compiler/src/query.rs", "crates/compiler/src/hir.rs", "crates/compiler/src/lift.rs")
     for f in model.fns():
-        if f.body is None or not f.file.startswith("crates/compiler/src/") or "/tests/" in f.file:
+        if f.body is None or "/tests/" in f.file or not (f.file in NAMESPACE_FILES or f.file.startswith("crates/compiler/src/typer/")):
             continue
         lets = {}
         for l in S.find(f.body, "Local"):
